@@ -21,6 +21,9 @@ EXPLANATION = (
     "R4 pseudo reads -- phased_blocks_as_reads adds allele phase[i] to read i of the call's own block in both branches, skips homozygous / unphased / wrong-ploidy / unrequested calls first, "
     "and yields only reads with more than one variant."
 )
+EXPLANATION += (
+    " " + 'R4 also: PhasedInputReader.read (called once per sample) never modifies the per-chromosome tables of the phase-input VCFs or anything reached from them by plain attribute/subscript/iteration views.'
+)
 NOT_DECIDED = "Equality of the decoded outputs of two whole runs; reproduction of input blocks under the coverage cap (solver behaviour)."
 ASSUMPTIONS = ["pysam returns a String FORMAT field with Number=. as a tuple of its comma-separated items", "the target samples of a run are the keys of sample_superreads"]
 
@@ -323,6 +326,34 @@ def r4(ctx):
         ok = ("1 < len(%s)" % rv, True) in ga
     ctx.ob(fi.qual, "only-informative-reads-yielded", ok, fi.loc(ys[0]) if ys else fi.loc(), "only pseudo reads with more than one variant are yielded" if ok else "the yield is not guarded by len(read) > 1")
 
+    # the per-chromosome phase tables are shared by all samples of a run: read() (called per sample) only looks them up
+    rd = ctx.func("whatshap.cli.PhasedInputReader.read")
+    shared = {"self"}
+    changed = True
+    while changed:
+        changed = False
+        for n in walk_function(rd.node):
+            tgt = src = None
+            if isinstance(n, ast.For):
+                tgt, src = n.target, n.iter
+            elif isinstance(n, ast.Assign) and len(n.targets) == 1:
+                tgt, src = n.targets[0], n.value
+            if tgt is None:
+                continue
+            inner = src.args[0] if isinstance(src, ast.Call) and u(src.func) == "enumerate" and src.args else src
+            plain = not any(isinstance(x, ast.Call) for x in ast.walk(inner))  # views only: a call result is a new object
+            if plain and (u(inner) == "self._vcfs" or util.root_name(inner) in shared - {"self"}):
+                for t in ast.walk(tgt):
+                    if isinstance(t, ast.Name) and t.id not in shared and not (isinstance(src, ast.Call) and u(src.func) == "enumerate" and isinstance(tgt, ast.Tuple) and t is tgt.elts[0]):
+                        shared.add(t.id)
+                        changed = True
+    bad = []
+    for st in util.store_sites(rd.node):
+        root = util.root_name(st.target)
+        if root in shared - {"self"} or (root == "self" and "_vcfs" in u(st.target)):
+            bad.append(st)
+    ctx.ob(rd.qual, "phase-input-tables-only-looked-up", not bad, rd.loc(bad[0].stmt) if bad else rd.loc(), "read() never modifies the tables of the phase-input VCFs (reached through %s): every sample of the run sees every chromosome's phase sets" % sorted(shared - {"self"}) if not bad else "read() modifies the shared phase-input tables: `%s` -- a later sample of the same chromosome no longer finds the input phase sets" % bad[0].text()[:80])
+
 
 RULES = [
     ("C09.R1", "HP and PS writer/reader grammar agreement", r1),
@@ -330,4 +361,4 @@ RULES = [
     ("C09.R3", "GT normalisation (sorted) precedes the setter for both tags", r3),
     ("C09.R4", "phased blocks -> complementary pseudo reads", r4),
 ]
-FLOORS = {"C09.R1": 15, "C09.R2": 8, "C09.R3": 2, "C09.R4": 12}
+FLOORS = {"C09.R1": 15, "C09.R2": 8, "C09.R3": 2, "C09.R4": 13}
